@@ -327,6 +327,93 @@ theorem build_prov (env : Env) (ops : List OpIn) (paths : List (B × PathItem IR
         · exact ⟨pre, op, post, by rw [hl, e], h1, h2, h3⟩
         · simp at h1
 
+
+theorem groupByPath_keys_nodup' : ∀ ops : List OpIn, ((groupByPath ops).map (·.1)).Nodup := by
+  intro ops
+  induction ops with
+  | nil => simp [groupByPath]
+  | cons op rest ih =>
+    simp only [groupByPath]
+    split
+    next grp hl =>
+      rw [setAssoc_keys, if_pos (mem_map.2 ⟨(_, grp), mem_of_lookup_some _ _ _ hl, rfl⟩)]
+      exact ih
+    next hl =>
+      simp only [map_cons, nodup_cons]
+      refine ⟨?_, ih⟩
+      intro hm
+      obtain ⟨e, he, hk⟩ := mem_map.1 hm
+      have := lookup_of_mem_nodup _ e.1 e.2 ih he
+      rw [hk, hl] at this
+      cases this
+
+/-! ## completeness: every operation with a stored method has its member in the path item -/
+
+theorem mem_keys_setAssoc {β} (k : B) (v : β) (l : List (B × β)) : k ∈ (setAssoc k v l).map (·.1) := by
+  rw [setAssoc_keys]
+  split
+  · assumption
+  · simp
+
+theorem keys_sub_setAssoc {β} (k : B) (v : β) (l : List (B × β)) (x : B) (hx : x ∈ l.map (·.1)) :
+    x ∈ (setAssoc k v l).map (·.1) := by
+  rw [setAssoc_keys]
+  split
+  · exact hx
+  · exact mem_append_left _ hx
+
+theorem buildGroup_members (env : Env) : ∀ (grp : List OpIn) (item : PathItem IR) (st : Schemas) (so : List B)
+    (item' : PathItem IR) (st' : Schemas) (so' : List B),
+    buildGroup env grp item st so = .ok (item', st', so') →
+    (∀ k ∈ item.map (·.1), k ∈ item'.map (·.1)) ∧
+    ∀ op ∈ grp, ∀ m, methodMember op.method = some m → m ∈ item'.map (·.1)
+  | [], item, st, so, item', st', so', h => by
+    simp only [buildGroup, Except.ok.injEq, Prod.mk.injEq] at h
+    obtain ⟨rfl, _, _⟩ := h
+    exact ⟨fun k hk => hk, by simp⟩
+  | op :: rest, item, st, so, item', st', so', h => by
+    simp only [buildGroup] at h
+    split at h
+    · cases h
+    next r heq =>
+      obtain ⟨k1, m1⟩ := buildGroup_members env rest _ r.2.1 r.2.2 item' st' so' h
+      constructor
+      · intro k hk
+        apply k1
+        cases hm : methodMember op.method with
+        | none => simpa [hm] using hk
+        | some m => simp only [hm]; exact keys_sub_setAssoc _ _ _ _ hk
+      · intro op' hop' m hm
+        rcases mem_cons.1 hop' with rfl | hr
+        · apply k1
+          simp only [hm]
+          exact mem_keys_setAssoc _ _ _
+        · exact m1 op' hr m hm
+
+/-- every operation handed to `build` whose method has a PathItem member is in the path item of its key — the
+    operation may have been overwritten by a later one with the same member, but the member is there -/
+theorem build_members (env : Env) (ops : List OpIn) (paths : List (B × PathItem IR)) (comps : List (B × IR))
+    (h : build env ops = .ok (paths, comps)) (op : OpIn) (hop : op ∈ ops) (m : B)
+    (hm : methodMember op.method = some m) (item' : PathItem IR) (hi : (convertPath op.path, item') ∈ paths) :
+    m ∈ item'.map (·.1) := by
+  simp only [build, buildFromGroups] at h
+  split at h
+  · cases h
+  next r heq =>
+    simp only [Except.ok.injEq, Prod.mk.injEq] at h
+    obtain ⟨rfl, _⟩ := h
+    obtain ⟨_, hprov⟩ := buildGroups_prov env _ [] [] r.1 r.2 (by rw [heq])
+    obtain ⟨grp, hg, st0, so0, st1, so1, hb⟩ := hprov _ item' hi
+    have hg' : (convertPath op.path, grp) ∈ groupByPath ops := mem_sortByKey.1 hg
+    have hgnd : ((groupByPath ops).map (·.1)).Nodup := groupByPath_keys_nodup' ops
+    have hl := lookup_of_mem_nodup _ _ grp hgnd hg'
+    rw [groupByPath_lookup] at hl
+    split at hl
+    · cases hl
+    · simp only [Option.some.injEq] at hl
+      have hin : op ∈ grp := by rw [← hl]; simp [hop]
+      exact (buildGroup_members env grp [] st0 so0 item' st1 so1 hb).2 op hin m hm
+
 /-- an operation that survives (the oracle's notion) is followed by no operation with the same key and member -/
 theorem survives_decomp : ∀ (ops : List OpIn) (op0 : OpIn), op0 ∈ survives ops →
     ∃ A Bs, ops = A ++ op0 :: Bs ∧
